@@ -161,7 +161,21 @@ func (r *renderer) body(items []*AItem, path []int, depth int) {
 			}
 			r.sb.WriteString(strings.Repeat(" ", pad) + "= ")
 			e.Value[0] = r.sb.Len()
-			r.sb.WriteString(valText(it.Val))
+			if ex := it.Val.AsExpr(); it.Val != nil && ex != nil {
+				for ep, x := range RenderExpr(&r.sb, ex, 0) {
+					r.ext[pathKey(p)+"#"+ep] = &Extent{Full: x.Full}
+				}
+				// object items: key start .. value end
+				for ep, x := range r.ext {
+					if strings.HasPrefix(ep, pathKey(p)+"#") && strings.HasSuffix(ep, ".key") {
+						if v := r.ext[strings.TrimSuffix(ep, ".key")+".val"]; v != nil {
+							r.ext[strings.TrimSuffix(ep, ".key")] = &Extent{Full: [2]int{x.Full[0], v.Full[1]}}
+						}
+					}
+				}
+			} else {
+				r.sb.WriteString(valText(it.Val))
+			}
 			e.Value[1] = r.sb.Len()
 			e.Full[1] = r.sb.Len()
 			r.sb.WriteString("\n")
